@@ -31,7 +31,11 @@ def main():
         seed = int(os.environ.get('VERIF_SEED', '1') or '1')
     except ValueError:
         seed = 1
-    os.environ.setdefault('PYTHONHASHSEED', '0')
+    if 'PYTHONHASHSEED' not in os.environ:
+        # a run is a function of the code and VERIF_SEED only: pin string hashing for this process and its children
+        # (the interpreter reads the variable at start-up, so start again with it set)
+        os.environ['PYTHONHASHSEED'] = '0'
+        os.execv(sys.executable, [sys.executable] + sys.argv)
     try:
         from vlib import env  # noqa: F401  (installs shims, puts /repo first)
         from vlib import runner
